@@ -108,6 +108,8 @@ impl Client {
                     .map(|(record, _)| try_deserialize_record::<Scratchpad>(record))
                     .collect::<Result<Vec<_>, _>>()
                     .map_err(|_| VaultError::CouldNotDeserializeVaultScratchPad(scratch_address))?;
+                // only versions validly signed by the vault owner are candidates
+                pads.retain(|pad| *pad.owner() == client_pk && pad.is_valid());
 
                 // take the latest versions
                 pads.sort_by_key(|s| s.count());
@@ -139,6 +141,14 @@ impl Client {
                 return Err(e)?;
             }
         };
+
+        // never hand back a scratchpad that is not the owner's or is not validly signed by the owner
+        if *pad.owner() != client_pk || !pad.is_valid() {
+            warn!("Fetched vault scratchpad at {network_address:?} is not validly signed by its owner");
+            return Err(VaultError::CouldNotDeserializeVaultScratchPad(
+                scratch_address,
+            ));
+        }
 
         Ok(pad)
     }
